@@ -464,6 +464,11 @@ def run_check(prop: Property, tier: str, replay: Optional[str] = None) -> int:
   budget = float(os.environ.get('VERIF_BUDGET_S', budget))
   known = [k for k in load_known_findings() if k.get('property') == pid]
   known_keys = {k['key']: k for k in known if k.get('status') == 'known'}
+  # a check run against an OLDER base of /repo (tools/harmless.py, tools/seeded.py with --base) names the
+  # already repaired findings whose fix: commit that base does not contain; there they are still present
+  for k in known:
+    if k.get('status') == 'fixed' and k['key'] in os.environ.get('VERIF_UNFIXED_IN_BASE', '').split(','):
+      known_keys[k['key']] = k
 
   evaluations = 0
   digests_nontrivial = set()
